@@ -10,6 +10,13 @@ fn valid_text<const N: usize>(t: &[u8; N]) -> bool {
             i += 1;
         } else if t[i] >= 0xC2 && t[i] <= 0xDF && i + 1 < N && t[i + 1] >= 0x80 && t[i + 1] <= 0xBF {
             i += 2;
+        } else if t[i] >= 0xE0 && t[i] <= 0xEF && i + 2 < N
+            && t[i + 1] >= (if t[i] == 0xE0 { 0xA0 } else { 0x80 })
+            && t[i + 1] <= (if t[i] == 0xED { 0x9F } else { 0xBF })
+            && t[i + 2] >= 0x80 && t[i + 2] <= 0xBF
+        {
+            // 3-byte sequences (no overlong forms, no surrogates)
+            i += 3;
         } else {
             return false;
         }
@@ -79,6 +86,12 @@ fn owned_utf8_ok(s: &str) -> bool {
             i += 1;
         } else if b[i] >= 0xC2 && b[i] <= 0xDF && i + 1 < b.len() && b[i + 1] >= 0x80 && b[i + 1] <= 0xBF {
             i += 2;
+        } else if b[i] >= 0xE0 && b[i] <= 0xEF && i + 2 < b.len()
+            && b[i + 1] >= (if b[i] == 0xE0 { 0xA0 } else { 0x80 })
+            && b[i + 1] <= (if b[i] == 0xED { 0x9F } else { 0xBF })
+            && b[i + 2] >= 0x80 && b[i + 2] <= 0xBF
+        {
+            i += 3;
         } else {
             return false;
         }
@@ -557,7 +570,9 @@ fn multiword<const N: usize>(w1: &[u8], w2: &[u8], w3: &[u8], l1: usize, l2: usi
         let tail: u8 = kani::any();
         kani::assume(tail < 0x80);
         if good {
-            kani::assume(!(tail.is_ascii_alphabetic() || tail == b'_'));
+            // a byte that cannot continue a word (digits are left out on purpose: whether `pass5`
+            // is one word is a lexical question, not a layout one)
+            kani::assume(!(tail.is_ascii_alphanumeric() || tail == b'_'));
         } else {
             kani::assume(tail.is_ascii_alphabetic() || tail == b'_');
         }
